@@ -71,4 +71,18 @@ def renderAbsName (ls : List PLabel) : List UInt8 :=
 def wireName (ls : List (List UInt8)) : List UInt8 :=
   (ls.flatMap fun l => UInt8.ofNat l.length :: l) ++ [0]
 
+/-! ### RFC 3597 §5 forms -/
+
+/-- `CLASSnnn` -/
+def renderClass (c : Nat) : List UInt8 := [67, 76, 65, 83, 83] ++ decimal c
+
+/-- `TYPEnnn` -/
+def renderType (t : Nat) : List UInt8 := [84, 89, 80, 69] ++ decimal t
+
+def hexDigitOctet (n : Nat) : UInt8 := if n < 10 then UInt8.ofNat (48 + n) else UInt8.ofNat (87 + n)
+
+/-- two lower-case hex digits per octet -/
+def renderHex (rd : List UInt8) : List UInt8 :=
+  rd.flatMap fun b => [hexDigitOctet (b.toNat / 16), hexDigitOctet (b.toNat % 16)]
+
 end QV.Spec.ZF
